@@ -335,11 +335,14 @@ pub async fn run_cb(sh: &Arc<Shared>, a: usize, cb: &'static str, arg: String) -
                         verif::note(format!("fx sendself {m} {}", show_send(&r)));
                     }
                     Fx::StopSelf(r) => {
-                        let ok = me.get_cell().verif_stop(r.clone());
+                        // the PUBLIC `stop()`; acceptance = the stop port was open just before
+                        let ok = me.get_cell().verif_ports_open().0;
+                        me.get_cell().stop(r.clone());
                         verif::note(format!("fx stopself {} {}", reason_str(r), ok_err(ok)));
                     }
                     Fx::KillSelf => {
-                        let ok = me.get_cell().verif_kill();
+                        let ok = me.get_cell().verif_ports_open().1;
+                        me.get_cell().kill();
                         verif::note(format!("fx killself {}", ok_err(ok)));
                     }
                     Fx::Reply(k, v) => {
@@ -901,14 +904,23 @@ impl World {
 
     pub fn stop(&mut self, a: usize, reason: Option<String>) {
         match self.me(a) {
-            Some(me) => verif::note(format!("ret {}", ok_err(me.get_cell().verif_stop(reason)))),
+            Some(me) => {
+                // the PUBLIC `ActorCell::stop`; acceptance = the stop port was open just before
+                let ok = me.get_cell().verif_ports_open().0;
+                me.get_cell().stop(reason);
+                verif::note(format!("ret {}", ok_err(ok)))
+            }
             None => verif::note("nocell".into()),
         }
     }
 
     pub fn kill(&mut self, a: usize) {
         match self.me(a) {
-            Some(me) => verif::note(format!("ret {}", ok_err(me.get_cell().verif_kill()))),
+            Some(me) => {
+                let ok = me.get_cell().verif_ports_open().1;
+                me.get_cell().kill();
+                verif::note(format!("ret {}", ok_err(ok)))
+            }
             None => verif::note("nocell".into()),
         }
     }
